@@ -106,8 +106,15 @@ def suffice (v : View) (r : Req) : Bool :=
   let nMax := min v.k amts.length
   let withChange := nMax > 0 &&
     decide ((amts.take nMax).sum ≥ outSum + feeFor r.userFee (nMax + 1) (m + 1) r.payloadLen + minRelay)
+  -- exact cover: only when the fee the request starts from already covers the relay minimum of that
+  -- subset (then the fee is fixed).  With a lower starting fee the wallet raises the fee step by step from
+  -- the selections it makes on the way, and an exact cover at the FINAL fee may be missed because an
+  -- earlier step ended in a dust-sized change (observed: user fee 23, two coins, amount = total − relay
+  -- minimum → InsufficientFunds); that path dependence is not part of this clause.
+  let unreachable := 2 * maxAmount + 1
   let exact := amts.length ≤ exactBound &&
-    existsExact amts (fun j => outSum + feeFor r.userFee j m r.payloadLen) v.k
+    existsExact amts (fun j =>
+      if initFee r.userFee ≥ relayMin (signedSize j m r.payloadLen) then outSum + initFee r.userFee else unreachable) v.k
   withChange || exact
 
 /-- largest fee the relay rule can require of this request -/
